@@ -4,6 +4,7 @@ import json, os
 ROOT = os.path.dirname(os.path.dirname(os.path.abspath(__file__)))
 props = [json.loads(l) for l in open(os.path.join(ROOT, "properties.jsonl"))]
 
+MC_NOTE = "Trusted base: the reference model (crates/refmodel: decoder, encoder, operation model), the Node glue, stateright's BFS. The model is never run alone: every transition is a real execution. Bounds: catalog shapes, buffer lengths and operation alphabets stated in DESIGN.md §6; configurations that hit the per-configuration transition cap are listed in the evidence (caps_hit) and make exhaustive=false."
 SWEEP_NOTE = "Trusted base: the reference model (crates/refmodel, independent of flatty), the generated Node glue (thin, mechanical, uses only the public API), rustc's layout as second witness. Bounds: the catalog of type shapes, the value alphabets and the byte-string lengths stated in the evidence 'rule'; values outside the alphabets are not explored."
 CHECKS = {
  "C01": ("exploration", "decode", "6.C01", "bounded exhaustive enumeration of inputs (byte-string tree + structured mutations) on the real validators, child process with crash/hang journal and canary/guard-page monitors",
@@ -22,6 +23,18 @@ CHECKS = {
          "Every declared-portable shape: ALIGN 1, no padding byte in the reference mask, image identical to the layout-free serialisation, same content when mapped at every address offset. One host only: platform independence is established as 'bytes are a platform-independent function of content'."),
  "C20": ("exploration", "emplace", "6.C20", "exhaustive sweep over default-capable shapes x every buffer length x offsets x four prior fills, compared with the reference default value and Default::default()",
          "default_in_place on every length and four prior contents: reads the reference default (zero leaves, empty containers, #[default] variant), validates, size() is the extent of that state, image independent of prior contents under the padding mask, equal to Default::default() for sized types."),
+ "C05": ("model_checking", "emplace+hist", "6.C05", "explicit-state BFS (stateright) over byte images reachable by in-place operations + exhaustive construction sweep; size() compared with the reference extent in every state",
+         "At every constructed value (emplace sweep) and every state of the history graphs (push/pop/truncate/assign/nested edits from every reachable state): size() equals the reference extent, is within the buffer, and the first size() bytes re-map to the same content and size."),
+ "C11": ("model_checking", "hist", "6.C11", "explicit-state BFS (stateright) on the real FlatVec/FlatString; every transition is one real call compared with a Vec/String model with fixed capacity",
+         "For every (element, length type) pair of the catalog and every single buffer length in range: the complete graph of states reachable with the operation alphabet (push, pop, push_slice, extend, truncate, clear, remove, swap_remove, resize, element writes, reverse / push(char), push_str, clear, uppercase) is explored to closure; results, len, capacity, contents, size(), validity and re-mapping are compared with the model after every step; one configuration has capacity above the length type's maximum."),
+ "C12": ("model_checking", "hist", "6.C12", "explicit-state BFS (stateright) on the real FlexVec; every transition is one real call compared with a Vec<Value> model whose geometry is re-derived from the image by the reference decoder",
+         "For every FlexVec instantiation of the catalog and every single buffer length in range, from default, emplaced and zero-terminated initial images: push (fitting, too large, failing emplacer, default), pop, truncate(k), clear and edits of individual items from every reachable state; length, items in order, validity, re-mapping after every step."),
+ "C13": ("model_checking", "hist", "6.C13", "same state graphs as C11/C12; the oracle on every transition whose call returned an error: observable state, size(), bytes inside the old extent unchanged; continuation conformance from the post-state",
+         "Every refused push / push_slice / push_str / FlexVec push in every reachable state (exactly full, payload does not fit, length type exhausted, offset not representable, failing nested emplacer): the container reads the same, and since the search continues from the post-state with the model unchanged, later operations are checked to behave as if the call never happened. Refusals are counted per cause in the evidence."),
+ "C14": ("model_checking", "emplace+hist", "6.C14", "write-footprint monitor on every transition of the history graphs and every emplacement: canaries around the slice + byte diff against the ranges the reference model allows the operation to touch",
+         "Every constructing and mutating operation including failing ones: bytes outside the slice (canaries, guard page) and, inside it, bytes outside the part being changed (computed from the reference layout of the pre-state) keep their contents."),
+ "C18": ("model_checking", "hist", "6.C18", "explicit-state BFS (stateright) with assign_in_place of every enumerated fitting and non-fitting value (all variants, three emplacer kinds) at every unsized node, interleaved with container operations",
+         "For every unsized catalog shape and buffer length: after a failed assign the bytes must validate, the value can be read, measured and assigned again (the search continues from it), and it must be unchanged when the refusal is for lack of room. Two genuine, unrepaired defects are listed as known findings F10/F11."),
  "C19": ("exploration", "decode", "6.C19", "exhaustive single-corruption enumeration of every constrained byte of every enumerated image, position judged against the reference's offending range",
          "Every constrained byte (Bool, tag, UTF-8) at every nesting position the catalog offers, each corrupted every listed way: the error must be a content error positioned inside the offending range."),
 }
@@ -36,7 +49,7 @@ for pid, (cat, engine, ref, tech, text) in sorted(CHECKS.items()):
         "replay_cmd_template": "./check --replay {path}",
         "engine": engine,
         "level_claimed": {"category": cat, "text": text, "design_ref": "DESIGN.md §" + ref},
-        "level_note": SWEEP_NOTE,
+        "level_note": MC_NOTE if cat == "model_checking" else SWEEP_NOTE,
         "technique": tech,
     })
 na = [{"property_id": p["id"], "reason": "check not built yet (work in progress; see DESIGN.md)"} for p in props if p["id"] not in CHECKS]
@@ -47,6 +60,7 @@ m = {
  "engines": [
   {"name": "decode", "path": "crates/engines/src/bin/decode.rs", "serves_properties": ["C01", "C02", "C06", "C19"], "kind_free_text": "E1 exhaustive product sweep over byte strings on the real validators vs reference decoder"},
   {"name": "emplace", "path": "crates/engines/src/bin/emplace.rs", "serves_properties": ["C03", "C15", "C17", "C20"], "kind_free_text": "E1 exhaustive product sweep over emplacements"},
+  {"name": "hist", "path": "crates/engines/src/bin/hist.rs", "serves_properties": ["C05", "C11", "C12", "C13", "C14", "C18"], "kind_free_text": "E2 explicit-state search (stateright BFS) over byte images, every transition a real library call vs refmodel::model"},
   {"name": "layout", "path": "crates/engines/src/bin/layout.rs", "serves_properties": ["C04"], "kind_free_text": "E1 exhaustive product sweep over shapes x lengths x values"},
  ],
  "checks": checks,
